@@ -8,3 +8,11 @@ for v in ('ecma_refl', 'ecma_norm', 'iso_refl', 'iso_norm', 'jones_refl', 'jones
                        timeout=600, expect=['postcondition', 'loop_invariant_step', 'loop_decreases'],
                        replay=('crc.c', fn),
                        trusted=['ghost fold axiom S64[i+1]==spec_crc64_step(S64[i],buf[i]) per executed iteration (defines the spec)']))
+
+# ---- crc/crc_base.c: crc16 t10dif (+copy), crc32 iscsi / ieee / gzip_refl
+FOLD32 = 'ghost fold axiom S[i+1]==spec_crc_step(S[i],buf[i]) per executed iteration (defines the spec)'
+for fn, exp in (('crc16_t10dif_base', []), ('crc16_t10dif_copy_base', ['assigns']), ('crc32_iscsi_base', []),
+                ('crc32_ieee_base', []), ('crc32_gzip_refl_base', [])):
+    HARNESSES.append(H(fn, ['C04'], 'crc/crc32.c', ['crc/crc_base.c'], enforce=fn, also=['C05', 'C15'],
+                       timeout=600, expect=['postcondition', 'loop_invariant_step', 'loop_decreases', 'overflow'] + exp,
+                       replay=('crc.c', fn), trusted=[FOLD32]))
